@@ -72,6 +72,16 @@ def structural_trees():
     t["isolate_symlink"] = (["r2", "r1"], ["--isolate", "-S"], [
         {"p": "r1/A", "k": "file", "c": lit("I")}, {"p": "r2/L", "k": "sym", "to": "../r1/A"}])
     t["isolate_symlink_rev"] = (["r1", "r2"], ["--isolate", "-S"], t["isolate_symlink"][2])
+    # the retained root holds the content only through a symlink into the other root, which also has a plain copy
+    t["isolate_symlink_copy"] = (["r2", "r1"], ["--isolate", "-S"], [
+        {"p": "r1/A", "k": "file", "c": lit("I")}, {"p": "r1/B", "k": "file", "c": lit("I")},
+        {"p": "r2/L", "k": "sym", "to": "../r1/A"}])
+    t["isolate_symlink_copy_rev"] = (["r1", "r2"], ["--isolate", "-S"], t["isolate_symlink_copy"][2])
+    # root names where one is a string prefix (not a path prefix) of the other
+    t["isolate_prefix_names"] = (["r", "r2"], ["--isolate"], [
+        {"p": "r/a", "k": "file", "c": lit("I")}, {"p": "r/s/a2", "k": "file", "c": lit("I")},
+        {"p": "r2/b", "k": "file", "c": lit("I")}, {"p": "r2/b2", "k": "file", "c": lit("I")}])
+    t["isolate_prefix_names_rev"] = (["r2", "r"], ["--isolate"], t["isolate_prefix_names"][2])
     t["isolate_hardlink"] = (["r2", "r1"], ["--isolate"], [
         {"p": "r1/A", "k": "file", "c": lit("I")}, {"p": "r2/H", "k": "hard", "to": "r1/A"}])
     return t
